@@ -15,7 +15,7 @@ import (
 //   encoder : every probe character as a one-character text (accepted? octets) + whole probe texts
 //   decoder : the encoder's output for every accepted probe character, every 1- and 2-octet sequence, the encoded probe texts
 //   splitter: the bits charged for every probe character + Len / Split of the probe texts
-// probe characters: every scalar value below U+30000 (all planes in which any of the codings has characters) and every
+// probe characters: every scalar value of the basic plane (where all codings but UCS-2 have their characters) and every
 // 16th above (58 values x 1,112,064 characters is too slow for the quick tier; the full per-character behaviour of the
 // ten table constants themselves is what Gen/Charsets.v, Gen/Widths.v tabulate exhaustively).
 // Two values with equal digests behave alike on all of that.  The class of a value is the smallest of the ten table
@@ -42,7 +42,7 @@ type dcClass struct {
 
 func sweepProbe(f func(r rune)) {
 	sweepRunes(func(r rune) {
-		if r < 0x30000 || r&15 == 0 || r == 0x10FFFF {
+		if r < 0x10000 || r&15 == 0 || r&0xFFFF == 0xFFFF {
 			f(r)
 		}
 	})
@@ -235,7 +235,7 @@ func aliasValues(base coding.DataCoding) (out []coding.DataCoding) {
 func emitClosure(w *CoqWriter) {
 	tab := dcClosure()
 	w.P("(* data_coding c -> (c, e, d, s): the table constant whose ENCODER / DECODER / SPLITTER the one that DataCoding(c).Encoding()")
-	w.P("   / .Splitter() hands out behaves like - decided by behaviour (every scalar value below U+30000 and every 16th above as a one-character text, every 1- and")
+	w.P("   / .Splitter() hands out behaves like - decided by behaviour (every scalar value of the basic plane and every 16th above as a one-character text, every 1- and")
 	w.P("   2-octet sequence through the decoder, the bits charged per scalar value, %d whole probe texts), smallest constant with", len(closureProbeTexts))
 	w.P("   equal behaviour; 255 = there is none, 254 = behaves like none of the ten constants *)")
 	w.P("Definition dc_closure : list (N * N * N * N) := [")
